@@ -30,6 +30,13 @@ class FuncRun(FunctionEngine):
                        else f'while {ast.unparse(n.test)}')
                 self.loop_ord[id(n)] = seen.get(sig, 0)
                 seen[sig] = seen.get(sig, 0) + 1
+        self.call_ord = {}
+        seen = {}
+        for n in ast.walk(node):
+            if isinstance(n, ast.Call):
+                sig = ast.unparse(n.func)
+                self.call_ord[id(n)] = seen.get(sig, 0)
+                seen[sig] = seen.get(sig, 0) + 1
         for d in node.decorator_list:
             ds = ast.unparse(d).split('(')[0]
             if ds not in DROPPED_DECORATORS:
@@ -203,7 +210,7 @@ class FuncRun(FunctionEngine):
             r = z3.Const(fresh_name('r'), T.RefSort)
             exc = [r != o for o in allowed.get(key, [])]
             fty = cur.field_ty[key]
-            eq = self.equals(V(fty, z3.Select(arr, r)), V(fty, z3.Select(was, r)), cur)
+            eq = self.equals(V(fty, T.Sel(arr, r)), V(fty, T.Sel(was, r)), cur)
             self.emit(cur, 'frame', f'field {key} unchanged' + (' except listed' if exc else ''),
                       z3.ForAll([r], z3.Implies(And(*exc), eq)), tag='property')
 
@@ -228,18 +235,83 @@ class Result:
                     backend=self.backend, ms=round(self.ms, 1), detail=self.detail)
 
 
+def split_goal(g, depth=0):
+    """Top-level conjunctions and boolean equivalences are split into separately checked sub-goals."""
+    if depth > 6:
+        return [g]
+    if z3.is_and(g):
+        out = []
+        for c in g.children():
+            out += split_goal(c, depth + 1)
+        return out
+    if z3.is_eq(g) and g.arg(0).sort() == z3.BoolSort():
+        a, b = g.arg(0), g.arg(1)
+        if z3.is_true(a) or z3.is_true(b):
+            return split_goal(b if z3.is_true(a) else a, depth + 1)
+        if z3.is_false(a) or z3.is_false(b):
+            return [z3.Not(b if z3.is_false(a) else a)]
+        return [z3.Implies(a, b), z3.Implies(b, a)]
+    if z3.is_implies(g):
+        subs = split_goal(g.arg(1), depth + 1)
+        if len(subs) > 1:
+            return [z3.Implies(g.arg(0), x) for x in subs]
+    return [g]
+
+
 def check_one(o, axioms, timeout_ms, rlimit=None, want_model=True):
-    s = z3.Solver()
-    s.set('timeout', timeout_ms)
-    for a in axioms:
-        s.add(a)
-    for a in o.assumptions:
-        s.add(a)
-    if not o.expect_sat:
-        s.add(z3.Not(o.goal))
-    t0 = time.time()
-    r = s.check()
-    ms = (time.time() - t0) * 1000
+    if o.expect_sat:
+        # reachability (vacuity guard): decided on the quantifier-free part of the path condition
+        from .stmts import has_quant
+        s = z3.Solver()
+        s.set('timeout', 2000)
+        for a in o.assumptions:
+            if not has_quant(a):
+                s.add(a)
+        t0 = time.time()
+        r = s.check()
+        return r, (time.time() - t0) * 1000, None, s
+    subs = split_goal(o.goal)
+    tot = 0.0
+    last = None
+    for g in subs:
+        r, ms, model, s = _check(o, axioms, g, timeout_ms, want_model)
+        tot += ms
+        last = (r, tot, model, s)
+        if r != z3.unsat:
+            return last
+    return last
+
+
+ATTEMPTS = (('default', {}), ('ematch', {'auto_config': False, 'smt.mbqi': False}),
+            ('seed7', {'smt.random_seed': 7}), ('seed23-ematch', {'auto_config': False, 'smt.mbqi': False,
+                                                                     'smt.random_seed': 23}))
+
+
+def _check(o, axioms, goal, timeout_ms, want_model=True):
+    """One sub-goal; small portfolio of configurations on `unknown`; only a configuration with MBQI may return a
+    counter-model."""
+    r = model = s = None
+    ms = 0.0
+    for attempt, opts in ATTEMPTS:
+        s = z3.Solver()
+        s.set('timeout', timeout_ms if attempt == 'default' else max(2000, timeout_ms // 2))
+        for k, v in opts.items():
+            s.set(k, v)
+        for a in axioms:
+            s.add(a)
+        for a in o.assumptions:
+            s.add(a)
+        if goal is not None:
+            s.add(z3.Not(goal))
+        t0 = time.time()
+        r = s.check()
+        ms += (time.time() - t0) * 1000
+        if r == z3.unsat:
+            break
+        if r == z3.sat and 'smt.mbqi' not in opts:
+            break
+        if r == z3.sat:
+            r = z3.unknown
     model = None
     if r == z3.sat and want_model and not o.expect_sat:
         try:
@@ -329,7 +401,7 @@ def verify_function(db, key, timeout_ms=10000, use_cvc5=True):
         obls = eng.generate()
         out['npaths'] = eng.npaths
         out['assumed'] = sorted(set(eng.assumed))
-        axioms = list(db.axioms) + [T.str_distinct_axiom()]
+        axioms = list(db.axioms) + [T.str_distinct_axiom()] + T.col_axioms()
         res = discharge(obls, axioms, timeout_ms, use_cvc5)
         out['results'] = res
         out['engine'] = eng
